@@ -2,6 +2,7 @@ package rules
 
 import (
 	"fmt"
+	"go/token"
 	"sort"
 	"strings"
 
@@ -237,6 +238,7 @@ func runC06(c *core.Ctx) {
 		}
 	}
 	c.Floor("C06/revert-to-zero-recreates", 3)
+	c06LastRootAndOrder(c)
 }
 
 func ssaExported(fn *ssa.Function) bool {
@@ -247,4 +249,88 @@ func ssaExported(fn *ssa.Function) bool {
 // mustAccompanyTail is mustAccompany where the event may itself be the operand of the return.
 func mustAccompanyTail(c *core.Ctx, fn *ssa.Function, ev ssa.Instruction, acc func(ssa.Instruction) bool, target targetFn) (bool, string) {
 	return mustAccompany(c, fn, ev, acc, target)
+}
+
+// c06LastRootAndOrder: (a) lastRootHash - what RevertToSnapshot(0) goes back to - is only ever set to
+// a root the trie was successfully brought to (after a nil error of recreateTrie, or at the end of a
+// Commit behind its error checks); (b) undoing journal entries is interleaved with writing the
+// returned account back: the account an entry returns is saved before an older entry is undone.
+func c06LastRootAndOrder(c *core.Ctx) {
+	const pkg = "data/state"
+	lr := c.P.Field(pkg, "AccountsDB", "lastRootHash")
+	if lr == nil {
+		c.Undecided("anchor", "AccountsDB.lastRootHash", 0, "field not found")
+		return
+	}
+	n := 0
+	for _, fn := range c.P.FuncsOfPkg(pkg) {
+		core.Instrs(fn, func(in ssa.Instruction) {
+			st, ok := in.(*ssa.Store)
+			if !ok {
+				return
+			}
+			fa, ok := st.Addr.(*ssa.FieldAddr)
+			if !ok || core.FieldOfAddr(fa) != lr {
+				return
+			}
+			n++
+			c.Analysed(fname(fn))
+			// every error-returning call of the function that precedes a success return must have been
+			// checked before the store: no path from the store reaches an error return
+			esc, path := core.PathQ{Fn: fn, From: st, Target: func(x ssa.Instruction, pred *ssa.BasicBlock) bool {
+				r, isRet := x.(*ssa.Return)
+				if !isRet {
+					return false
+				}
+				return !core.SuccessReturn(r, pred) || !core.NilReturn(r, pred)
+			}}.Escape()
+			c.Check(esc == nil, "C06/last-root-set-only-after-success", fname(fn)+"/store-lastRootHash", st.Pos(),
+				"after lastRootHash is set the function can only succeed",
+				"lastRootHash is set and the function can still fail afterwards ("+c.P.PathString(path)+"): a failed operation leaves the trie where it was but moves the root that RevertToSnapshot(0) recreates, so reverting to zero no longer restores the last committed state")
+		})
+	}
+	c.Floor("C06/last-root-set-only-after-success", 2)
+	if fn := anchorM(c, pkg, "AccountsDB", "RevertToSnapshot"); fn != nil {
+		var rev ssa.Instruction
+		for _, in := range core.CallsIn(fn, func(in ssa.Instruction, cc *ssa.CallCommon) bool {
+			return cc.IsInvoke() && cc.Method.Name() == "Revert"
+		}) {
+			rev = in
+		}
+		loop := (*core.Loop)(nil)
+		if rev != nil {
+			loop = core.InnermostLoop(fn, rev.Block())
+		}
+		if rev == nil || loop == nil {
+			c.Undecided("C06/reverted-account-written-back-in-order", "AccountsDB.RevertToSnapshot", fn.Pos(), "no loop undoing journal entries")
+			return
+		}
+		saves := func(in ssa.Instruction) bool {
+			cc := core.CallOf(in)
+			return cc != nil && cc.StaticCallee() != nil && cc.StaticCallee().Name() == "saveAccountToTrie" && loop.Body[in.Block()]
+		}
+		nilAccount := func(b *ssa.BasicBlock, si int) bool {
+			ifi, ok := b.Instrs[len(b.Instrs)-1].(*ssa.If)
+			if !ok {
+				return false
+			}
+			cond, on := ifi.Cond, 0
+			if u, isU := cond.(*ssa.UnOp); isU && u.Op == token.NOT {
+				cond, on = u.X, 1
+			}
+			call, isCall := cond.(*ssa.Call)
+			return isCall && call.Call.StaticCallee() != nil && call.Call.StaticCallee().Name() == "IfNil" && si == on
+		}
+		esc, path := core.PathQ{Fn: fn, From: rev, Via: saves, ViaEdge: nilAccount,
+			Target: func(x ssa.Instruction, pred *ssa.BasicBlock) bool {
+				if x == loop.Header.Instrs[0] {
+					return true
+				}
+				r, isRet := x.(*ssa.Return)
+				return isRet && !loop.Body[x.Block()] && core.SuccessReturn(r, pred)
+			}}.Escape()
+		c.Check(esc == nil, "C06/reverted-account-written-back-in-order", "AccountsDB.RevertToSnapshot", rev.Pos(),
+			"the account returned by an undone entry is saved to the trie before the next (older) entry is undone",
+			"an older journal entry can be undone (or the function can succeed) before the account returned by the previous undo was written back ("+c.P.PathString(path)+"): undo steps that delete or replace the same address are applied out of order, and an account can survive a revert to before its creation")
+	}
 }
